@@ -309,6 +309,10 @@ func (o *OperandPegImpl) CalcOffsetByteSize() int {
 			if memInfo.BaseReg == "EBP" && memInfo.IndexReg == "" {
 				return 1 // disp8=0 for [EBP]
 			}
+			// [EBP+index*scale] も SIB.base=EBP を表すために mode 01 + disp8=0 が必要
+			if memInfo.BaseReg == "EBP" {
+				return 1 // disp8=0 for [EBP+index*scale]
+			}
 			// Other cases like [BX], [SI], [BX+SI] etc. need no offset bytes with ModRM mode 00.
 			return 0
 		}
